@@ -232,10 +232,11 @@ def _apply_rounding(x, spec):
 
     try:
         base, direction = spec["base"], spec["direction"]
+        # numpy.ceil / floor / round return floats: a rounded column is always float
         if direction == "up":
-            r = base * math.ceil(x / base)
+            r = base * float(numpy.ceil(x / base))
         elif direction == "down":
-            r = base * math.floor(x / base)
+            r = base * float(numpy.floor(x / base))
         elif direction == "nearest":
             r = base * float(numpy.round(x / base))
         else:
